@@ -1,7 +1,8 @@
 import N0Verif.Proto
 import N0Verif.Val
 import N0Verif.Model.Json
-/-! driver operations of the JSON model: `json.dump`, `json.loads`, `json.esc`, `json.expect`, `json.cols` -/
+/-! driver operations of the JSON model: `json.dump`, `json.loads`, `json.esc`, `json.expect`, `json.cols`,
+`json.ctor` (the constructors `n0dict(text)` / `n0list(text)`) -/
 namespace N0.Drv.Json
 open N0 N0.Proto N0.Json
 
@@ -67,6 +68,18 @@ def handle (toks : List String) : Option String :=
       | some cols => some ("ok " ++ showCols cols)
       | none => some "ok none"
     | _ => some "bad-op"
+  | ["json.ctor", kind, text] =>
+    match decStr text with
+    | some text =>
+      let r := if kind == "d" then some (n0dictOfText text) else if kind == "l" then some (n0listOfText text) else none
+      match r with
+      | some (.ok v) => some ("ok " ++ showVal v)
+      | some (.error .Unsupported) => some "unsupported"
+      | some (.error .OutOfFuel) => some "err OutOfFuel"
+      | some (.error .TypeError) => some "err TypeError"
+      | some (.error _) => some "err JSONDecodeError"
+      | none => some "bad-op"
+    | none => some "bad-op"
   | _ => none
 
 end N0.Drv.Json
